@@ -245,10 +245,10 @@ def fixed_cases():
             {"text": txt2, "name": "M", "points": pts2, "ranges": {}, "features": ["for-equation", "function"]}]
 
 
-# Where the three options (and the attributes derived from them) are read: the model has exactly these
-# sites (map mode, call mode, final expand; the two `expand_vectors and expand_mx` ordering tests of
-# `_simplify_once` only order passes that are off here).  Extracted with Python's `ast` from the modules
-# under test; a difference is a broken tie (a new read site is how an option would start to change equations).
+# Where the three options (and the attributes derived from them) are read in the current sources.  This is
+# *information for the evidence file only* (`option_read_sites`, plus a note when it differs from the
+# list below): a new read site may be a log message or a name and is no reason for an alarm; whether an
+# option leaks into the generated terms is decided behaviourally by the 8-combination comparison.
 EXPECTED_SITES = {
     "generator.py:Generator.__init__:option:unroll_loops": 1,
     "generator.py:Generator.__init__:option:inline_functions": 1,
@@ -300,14 +300,13 @@ def option_sites():
 def check_option_sites(ctx):
     try:
         got = option_sites()
-    except Exception as e:
-        ctx.tie_broken("translator:option-sites", "cannot scan the sources: %s" % e)
+    except Exception as e:      # never a verdict
+        ctx.notes.append("option read sites could not be scanned: %s" % e)
         return
     ctx.extra["option_read_sites"] = got
-    ctx.case({"option-sites": sorted(got)}, nontrivial=True)
     if got != EXPECTED_SITES:
         diff = {k: [EXPECTED_SITES.get(k), got.get(k)] for k in set(got) | set(EXPECTED_SITES) if got.get(k) != EXPECTED_SITES.get(k)}
-        ctx.tie_broken("translator:option-sites", {"expected/found": diff})
+        ctx.notes.append("option read sites differ from the recorded list (informational): %s" % sorted(diff.items()))
 
 
 def run(ctx):
@@ -350,9 +349,6 @@ def search(ctx):
 
 def replay(ctx, payload):
     c = payload["case"]
-    if "option-sites" in c:
-        check_option_sites(ctx)
-        return
     check_case(ctx, c, ctx.driver("drv_c12"))
 
 
